@@ -413,6 +413,22 @@ pub fn seeds() -> Vec<(String, Vec<u8>)> {
             v.push((format!("hll/hostile/fullset/lg{lg_k}/c{compact}"), img));
         }
     }
+    // hostile HLL set images: an updatable table whose slots repeat coupons while the count field names the
+    // distinct ones (the table is fuller than its count says: the growth test never fires)
+    for &lg_k in &[10u8, 12] {
+        let lg_arr = 5u8;
+        let distinct: Vec<u32> = (0..12).map(|_| refhash::hll_coupon(&sm.next().to_le_bytes())).collect();
+        for filled in [24usize, 32] {
+            let mut img = hspec::encode_set(lg_k, 2, &distinct, lg_arr, &hspec::EncOpts { compact: false, ooo: false, empty_flag: true });
+            img.truncate(12);
+            img[8..12].copy_from_slice(&(distinct.len() as u32).to_le_bytes());
+            for slot in 0..(1usize << lg_arr) {
+                let c = if slot < filled { distinct[slot % distinct.len()] } else { 0 };
+                img.extend_from_slice(&c.to_le_bytes());
+            }
+            v.push((format!("hll/hostile/dupset/lg{lg_k}/f{filled}"), img));
+        }
+    }
     // theta
     let sh = refhash::seed_hash(9001);
     for &n in &[0usize, 1, 2, 7, 8, 9, 100, 600] {
